@@ -112,14 +112,80 @@ def signature(paths):
         stores = _project(rel, lambda e: e[0] not in ("return", "raise"))
         rs = _project(rel, lambda e: e[0] == "raise")
         if p.kind == "return":
-            rows["returns"].append((p.conds, (summary.show_effects(early) + " ; then " if early else "") + f"{p.value}"))
+            rows["returns"].append((p.conds, (canon_effects(early) + " ; then " if early else "") + f"{p.value}"))
         elif p.kind == "raise":
             rows["raises"].append((p.conds, f"raise {p.value}"))
         if stores:
-            rows["stores"].append((p.conds, summary.show_effects(stores)))
+            rows["stores"].append((p.conds, canon_effects(stores)))
         if rs:
-            rows["raises"].append((p.conds, summary.show_effects(rs)))
+            rows["raises"].append((p.conds, canon_effects(rs)))
     return {k: _case_table(v) for k, v in rows.items()}
+
+
+def _cond_atoms(ctext: str):
+    """[(atom, polarity, members or None)] of a condition text `a and not b and not ALL[+c;-d]`."""
+    out = []
+    for part in _split_and(ctext):
+        pol = True
+        if part.startswith("not "):
+            part, pol = part[4:], False
+        out.append((part, pol, _members(part) if part.startswith("ALL[") else None))
+    return out
+
+
+def _holds(ctext: str, asg: dict) -> bool:
+    for atom, pol, members in _cond_atoms(ctext):
+        val = all(asg[m] == want for m, want in members) if members is not None else asg[atom]
+        if val != pol:
+            return False
+    return True
+
+
+def canon_effects(effects) -> str:
+    """Canonical text of an effect list: the branches at this level are replaced by a case table over their atoms (so the
+    nesting, order and merging of the tests do not matter), loops recursively."""
+    universe = set()
+
+    def collect(es):
+        for e in es:
+            if e[0] == "if":
+                for atom, _, members in _cond_atoms(e[1]):
+                    universe.update(m for m, _ in members) if members is not None else universe.add(atom)
+                collect(e[2])
+                collect(e[3])
+
+    collect(effects)
+
+    def flat(es, asg):
+        out = []
+        for e in es:
+            if e[0] == "if":
+                out.extend(flat(e[2] if _holds(e[1], asg) else e[3], asg))
+            elif e[0] == "rep":
+                out.append(f"rep({e[1]}: {canon_effects(e[2])})")
+            elif e[0] == "maybe":
+                out.append(f"maybe({canon_effects(e[1])})")
+            else:
+                out.append(" ".join(str(x) for x in e))
+        return out
+
+    if not universe:
+        return "; ".join(flat(effects, {}))
+    atoms = sorted(universe)
+    if len(atoms) > 8:
+        return summary.show_effects(effects)
+    import itertools
+
+    rows = {}
+    for values in itertools.product((True, False), repeat=len(atoms)):
+        asg = dict(zip(atoms, values))
+        rows.setdefault("; ".join(flat(effects, asg)), []).append(values)
+    # print the table grouped by outcome: outcome <- the assignments that lead to it
+    parts = []
+    for outcome, vals in sorted(rows.items()):
+        keys = sorted(",".join(("" if v else "!") + a for a, v in zip(atoms, vs)) for vs in vals)
+        parts.append("{" + " | ".join(keys) + "} -> [" + outcome + "]")
+    return "cases(" + " ;; ".join(parts) + ")"
 
 
 def _is_int_atom(t: str) -> bool:
